@@ -7,6 +7,7 @@ EXPECTED_SLOT_SITES = [
     "pkg/redis/client/cluster/cluster.go:hash:Crc16",
     "pkg/redis/client/cluster/cluster.go:hash:Crc16",
     "pkg/redis/client/cluster/cluster.go:hash:Crc16",
+    "pkg/redis/client/cluster/cluster.go:pinBatchRoute:hash",
     "pkg/redis/client/cluster/multi.go:multiGet:hash",
     "pkg/redis/client/cluster/multi.go:multiSet:hash",
     "pkg/redis/client/cluster/txn_batcher.go:Put:hash",
